@@ -9,8 +9,8 @@ Open Scope string_scope.
 
 (* a Python exception instance: class name, str(exc), whether the class derives from Exception
    (false: KeyboardInterrupt, SystemExit, GeneratorExit - BaseException only), and whether it is one of the
-   stream errors fetch() converts: EOFError, http.client.HTTPException, OSError (TimeoutError,
-   ConnectionResetError, ...), zlib.error *)
+   errors the except clause of fetch() converts when they cross the with block: EOFError,
+   http.client.HTTPException, OSError (TimeoutError, ConnectionResetError, ...), zlib.error *)
 Record exn := { e_name : string; e_msg : string; e_is_exception : bool; e_is_io : bool }.
 
 Inductive pyerr :=
@@ -53,7 +53,7 @@ Definition setdefaults (url : string) (d : fdict) : fdict :=
 Section Fetch.
   Variable fetcher : string -> fret.
 
-  (* an error raised while the stream is in use (the body of the with block, file_obj present):
+  (* an error crossing the with block while a stream is in use (file_obj present):
      except URLFetchingError: raise / except (EOFError, HTTPException, OSError, zlib.error): URLFetchingError *)
   Definition convert_stream_error {A : Type} (r : outcome A) : outcome A :=
     match r with
@@ -80,16 +80,24 @@ Section Fetch.
         end
     end.
 
+  (* FetchedStream.read: the with block is given the caller's file object wrapped; an Exception of any class
+     raised by its read() is raised as URLFetchingError("Name: message") at the call, a BaseException outside
+     Exception travels unchanged *)
+  Definition stream_read (f : fileobj) : outcome string :=
+    match fo_read f with
+    | ReadOk s => Val s
+    | ReadRaises e => if e_is_exception e
+                      then Exc (URLFetchingError (e_name e ++ ": " ++ e_msg e))
+                      else Exc (Raised e)
+    end.
+
   (* result['string'] if 'string' in result else result['file_obj'].read() *)
   Definition read_payload (d : fdict) : outcome string * list event :=
     match d_string d with
     | Some s => (Val s, [])
     | None =>
         match d_file d with
-        | Some f => match fo_read f with
-                    | ReadOk s => (Val s, [ReadEv (fo_id f)])
-                    | ReadRaises e => (Exc (Raised e), [ReadEv (fo_id f)])
-                    end
+        | Some f => (stream_read f, [ReadEv (fo_id f)])
         | None => (Exc (KeyError "file_obj"), [])
         end
     end.
@@ -106,12 +114,6 @@ Section Fetch.
     match c with
     | CFontSrc | CUseSvg => pyerr_is_exception e              (* except Exception *)
     | _ => match e with URLFetchingError _ => true | _ => false end
-    end.
-
-  Definition attachment_swallows (c : consumer) (e : pyerr) : bool :=
-    match c, e with
-    | CAttachment, Raised x => e_name x =? "StopIteration"
-    | _, _ => false
     end.
 
   Definition is_css (m : option string) : bool :=
@@ -135,10 +137,7 @@ Section Fetch.
         then (Val (None : option (string * option string)), [])       (* 'Unsupported stylesheet type' *)
         else match read_payload d with
              | (Val s, ev) => (Val (Some (s, mime_value d)), ev)
-             | (Exc e, ev) =>
-                 (* write_pdf_attachment reads with iter(lambda: source.read(4096), b''): a StopIteration
-                    raised by read() ends that loop like the sentinel does - an empty payload *)
-                 if attachment_swallows c e then (Val (Some ("", mime_value d)), ev) else (Exc e, ev)
+             | (Exc e, ev) => (Exc e, ev)
              end) in
     match r with
     | Val (Some p) => (Val (Some p), ev, [])
